@@ -387,6 +387,9 @@ func probesOf(c *Case) []*Probe {
 			if strings.HasPrefix(c.Rel, "override:") || strings.HasPrefix(c.Rel, "override-inplace:") {
 				ps = append(ps, renderProbe(e, "pg"))
 			}
+			if strings.HasPrefix(c.Rel, "instance-delete:") {
+				ps = append(ps, renderProbe(e, "delete:"+strings.TrimPrefix(c.Rel, "instance-delete:")))
+			}
 			if strings.HasPrefix(c.Rel, "override-inplace:") {
 				// the same override written into a COPY of the table must render the same
 				ps = append(ps, renderProbe(e, "override:"+strings.TrimPrefix(c.Rel, "override-inplace:")))
